@@ -73,6 +73,19 @@ Theorem C11_eigen_path_spd : forall rnd n A (p : Z) (q : positive) eps enh L Q o
 Proof. exact eigen_path_spd. Qed.
 Print Assumptions C11_eigen_path_spd.
 
+(* the numel == 1 path (any configuration and flag): for EVERY real entry, negative ones included, the
+   result is a positive number <= eps^e (the same shift by -min(a, 0) as the eigen path); no sign guard *)
+Theorem C11_scalar_path_spd : forall rnd A (p : Z) (q : positive) cfg eps isd L Q out,
+  (0 < p)%Z -> 0 < eps -> expo (R_ops rnd) p q < 0 ->
+  matrix_inverse_root (R_ops rnd) [1%nat; 1%nat] A p q cfg eps isd L Q = Ok out ->
+  msym 1 (oX out)
+  /\ (forall x, nonzero 1 x -> 0 < qform (R_ops rnd) 1 (oX out) x)
+  /\ (forall x, qform (R_ops rnd) 1 (oX out) x <= Rpower eps (expo (R_ops rnd) p q) * dot (R_ops rnd) 1 x x)
+  /\ mcommute (R_ops rnd) 1 (oX out) A
+  /\ 0 < oX out 0%nat 0%nat <= Rpower eps (expo (R_ops rnd) p q).
+Proof. exact scalar_path_spd. Qed.
+Print Assumptions C11_scalar_path_spd.
+
 (* inputs with more than one element that are not square 2-D matrices are rejected (any scalar instance,
    hence also the executed binary64 one; any configuration, root, flag) *)
 Theorem C11_shape_guard : forall F (Op : ops F) shape A p q cfg eps isd L Q,
